@@ -15,7 +15,7 @@
         final flush inside fclose, replayed on the library by the harness.
     (3) [model_matches_source], [hi_macros_checked], [anchored_sites_checked], [anchored_covers]: the call-site
         skeleton of every modelled function equals the one regenerated from the current C source, the wrapper
-        macros have the expected success tests, and no I/O call site of any of the 25 anchored functions drops its
+        macros have the expected success tests, and no I/O call site of any of the anchored functions (40 by now) drops its
         result (one site excused, see FaultProofs.v).
     (4) [upper_model_matches_source], [anchored_functions_fault_visible]: the 13 anchored functions above L1 (Vdetach,
         VSdetach, HMCPcloseAID, HMCPendaccess, mcache_sync, ncclose, NC_free_cdf, hdf_close, hdf_xdr_cdf, xdr_cdf,
@@ -111,11 +111,13 @@ Theorem anchored_covers :
   ["HP_read"; "HP_write"; "HPseek"; "hi_close_stdio"; "HIextend_file"; "HIsync"; "HTPsync"; "HTPend";
    "HIrelease_filerec_node"; "HIupdate_version"; "Hclose"; "Hsync"; "HPread_drec"; "Vdetach"; "VSdetach";
    "HMCPcloseAID"; "HMCPendaccess"; "mcache_sync"; "ncclose"; "NC_free_cdf"; "hdf_close"; "hdf_xdr_cdf"; "xdr_cdf";
-   "SDend"; "SDendaccess"; "HPgetdiskblock"; "HTIupdate_dd"; "HTInew_dd_block"].
+   "SDend"; "SDendaccess"; "HPgetdiskblock"; "HTIupdate_dd"; "HTInew_dd_block"; "Hopen"; "SDgetchunkinfo";
+   "SDIfreevarAID"; "SDsetchunkcache"; "SDgetcompinfo"; "SDgetdatasize"; "SDcheckempty"; "SDsetaccesstype";
+   "SDwritedata"; "SDreaddata"; "SDwritechunk"; "SDreadchunk"].
 Proof. exact anchored_covers_lemma. Qed.
 Print Assumptions anchored_covers.
 
-(** (4) every one of the 25 anchored functions: a control-flow term whose call-site skeleton equals the generated
+(** (4) every one of the anchored functions (40 by now): a control-flow term whose call-site skeleton equals the generated
     table ([model_matches_source] for L1, [upper_model_matches_source] for the rest) and which is fault-visible for
     every state / every resolution of its data-dependent branches, loop counts and callee behaviour; ncclose and
     SDend outside netCDF define mode (SDstart clears NC_INDEF: regenerated fact) *)
@@ -192,6 +194,18 @@ Print Assumptions newblock_never_dangling.
 Theorem conventions_consistent : forallb conv_ok conventions = true /\ (40 <= List.length conventions)%nat.
 Proof. exact conventions_consistent_lemma. Qed.
 Print Assumptions conventions_consistent.
+
+(** (7) round 4: Hopen's reopen branch (read-only file opened again with write access): for every file record and
+    every fault placement the record shared by the file ids keeps a stream, and a failure is reported; the order
+    "open the new stream, then close the old one" is regenerated from hfile.c *)
+Theorem hopen_reopen_keeps_stream : forall st o r l st' o' tr,
+  file_open st = true -> exec frec Hopen_reopen_prog st o = (r, l, st', o', tr) -> file_open st' = true.
+Proof. exact hopen_reopen_keeps_stream_lemma. Qed.
+Print Assumptions hopen_reopen_keeps_stream.
+
+Theorem hopen_reopen_fault_visible : visible_prog frec Hopen_reopen_prog.
+Proof. exact hopen_reopen_visible_lemma. Qed.
+Print Assumptions hopen_reopen_fault_visible.
 
 (** S-level: the two formulations of the property on observations *)
 Theorem visible_implies_judge : forall o,
